@@ -250,7 +250,10 @@ func checkProgram(c Case, tree *Node, text, where string, st *fw.Stats) []findin
 	}
 	if st != nil {
 		st.Evals++
-		st.Nontrivial++
+		if len(spans) > 0 {
+			// the reference finds an offending construct under this option vector
+			st.Nontrivial++
+		}
 		switch {
 		case pr.Static && pr.Parser:
 			st.Outcome("rejected-by-parser")
@@ -581,7 +584,7 @@ func init() {
 			"plants are rule-breaking constructs (undefined name, break/continue/return/load out of place, if/for/while at top level, while, set, rebinding by assignment/def/load/for/augmented/tuple, bad parameter lists, bad argument lists, 256 arguments, compound or non-assignable targets) and legal look-alikes (255 arguments, keyword-only forms, forward references); " +
 			"oracle = own static checker on the tree giving the set of offending constructs: reject iff non-empty, first reported position inside one of them, probe not run on rejection, accepted programs compile and start (unmodified bases must finish cleanly). " +
 			"recursion: all call graphs over <=4 functions (f0 entry, others canonical up to renaming) with <=4 (quick) / <=5 (thorough) edges, each edge direct / via lambda / via sorted|min|max key= / to a second closure of the same def, Recursion off and on, " +
-			"oracle = simulation of the bounded-depth execution predicting the exact sequence of function entries and whether a function code already active is re-entered. non-trivial = every (program, options) pair and every (graph, option) pair",
+			"oracle = simulation of the bounded-depth execution predicting the exact sequence of function entries and whether a function code already active is re-entered. non-trivial = (program, options) pairs (distinct by construction) in which the reference finds at least one offending construct, i.e. the planted violation is live under that option vector, plus every (call graph, option) pair in which some function is re-entered; the other pairs must be accepted and run, and are judged but not counted",
 		Run: run, Worker: worker, Replay: replay,
 		Assumptions: []string{
 			"which of several simultaneous static errors is reported first is not judged: the first reported position must lie inside any one offending construct",
